@@ -123,6 +123,21 @@ func GenRefGraph(t *rapid.T, label string) *GraphCase {
 			g.Types[kn] = &ref.SNode{Kind: ref.SLit, Lit: ref.KString, Tok: `"kab"`, Str: "kab", Rules: []ref.SRule{{Name: "regex", ValKind: ref.RVScalar, Tok: `"^k[a-c]{2}$"`}}}
 			gc.Hints[g.Types[kn]] = []*ref.Value{strVal("kab"), strVal("kcc")}
 			gc.Order = append(gc.Order, kn)
+			if rapid.IntRange(0, 2).Draw(t, fmt.Sprint(label, "KSAlias", i)) == 0 {
+				// the shortcut names an alias of the string type - possibly one that also lists itself
+				// next to the terminating member (@ka = @ka | @k)
+				ka := fmt.Sprintf("@ka%d", keyTypes)
+				al := &ref.SNode{Kind: ref.SRef, Names: []string{kn}}
+				switch rapid.IntRange(0, 2).Draw(t, fmt.Sprint(label, "KSAliasForm", i)) {
+				case 1:
+					al.Names = []string{ka, kn}
+				case 2:
+					al.Names = []string{kn, ka}
+				}
+				g.Types[ka] = al
+				gc.Order = append(gc.Order, ka)
+				kn = ka
+			}
 			v := refNode(fmt.Sprint(label, "KSV", i))
 			v.Rules = append(v.Rules, BoolRule("optional", true))
 			o.Props = append(o.Props, ref.SProp{Key: kn, KeyTok: kn, Shortcut: true, Val: v})
